@@ -4,3 +4,17 @@
 #![allow(clippy::all, clippy::pedantic)]
 
 // wrappers for the clk property group
+
+// owner: group a1 (C01, C02, C06): names the driver needs for running the real
+// `KalmanClockController` through its crate-internal controller API.
+pub use crate::algorithm::{
+    InternalMeasurement, InternalSourceController, InternalStateUpdate, InternalTimeSyncController,
+    KalmanClockController, KalmanControllerMessage, KalmanSourceMessage,
+};
+pub use crate::algorithm::verif_kalman::a1 as probe;
+
+pub type TwoWayCtl<C> = <KalmanClockController<C> as InternalTimeSyncController>::NtpSourceController;
+pub type OneWayCtl<C> = <KalmanClockController<C> as InternalTimeSyncController>::OneWaySourceController;
+
+/// exit status used by the steering code when a panic threshold is exceeded
+pub const EXIT_SOFTWARE: i32 = crate::exitcode::SOFTWARE;
